@@ -91,6 +91,11 @@ func c11Gen(r *vh.Rng) []string {
 			continue
 		}
 		if r.Bool(8) {
+			// a session that is over but still listed
+			ops = append(ops, fmt.Sprintf("gone m%d", r.Intn(n)))
+			continue
+		}
+		if r.Bool(8) {
 			// a miner's measured rate moves right after the allocator took its snapshot
 			ops = append(ops, fmt.Sprintf("fullr %d %d m%d %d", 100+r.Intn(9000), int64(300e9), r.Intn(n), 1+r.Intn(6000)))
 			continue
@@ -223,6 +228,11 @@ func c11Exec(tr *vh.Transcript, ops []string) {
 			}
 			tr.Out("fired %d", b2i(armed == nil))
 			armed = nil
+		case "gone": // the miner's session has ended (what Scheduler.Run does when its proxy returns) and the TCP handler has not removed it from the list yet
+			tr.Op("%s", op)
+			if sc, ok := scheds[f[1]]; ok {
+				sc.onDisconnect()
+			}
 		case "fullr": // a miner's measured hashrate moves between the allocator's snapshot and the hand-out
 			var req, dur, nhr int64
 			fmt.Sscan(f[1], &req)
